@@ -92,6 +92,11 @@ def static_unsupported(ast, lang):
                 bad[i] = {"status": "F31-default-initializer-names-a-range-tag"}
             if k == "packet_declaration" and d.get("parent_id") and not env.has_payload(env.decls[d["parent_id"]]):
                 bad[i] = {"status": "F32-child-of-payloadless-parent-uses-undeclared-span"}
+            if k in ("packet_declaration", "struct_declaration") and d.get("parent_id") and any(
+                    f["kind"] == "size_field" and f.get("field_id") in ("_payload_", "_body_") for f in d.get("fields", [])) and any(
+                    f["kind"] == "size_field" and f.get("field_id") in ("_payload_", "_body_")
+                    for a in env.parents(d) for f in a.get("fields", [])):
+                bad[i] = {"status": "F60-payload_size_-declared-twice"}
             if k in ("packet_declaration", "struct_declaration") and not d.get("fields"):
                 bad[i] = {"status": "F32-declaration-without-fields-uses-undeclared-span"}
         if lang == "java":
